@@ -129,7 +129,7 @@ def witnesses_enc(only_rel=False):
                 good = [k for k in cand if legal(k)]
                 bad = [k for k in cand if not legal(k)]
                 return [good[0], good[-1], rnd.choice(good)] + bad[:1] + bad[-1:]
-            return ['rel']
+            return ['rel'] * 5       # both limits, zero, one beyond each limit
         for r in isa.ROWS:
             if only_rel and not any(k in ('REL7', 'REL12') for k in r['ops']):
                 continue
@@ -172,6 +172,25 @@ def witnesses_enc(only_rel=False):
                  ('.macro ld2x\n ldi r16, @0*2\n.endm\n ld2x 120+10', None), ('.macro ld2x\n ldi r16, @0*2\n.endm\n ld2x 60+3', '0ee7'),
                  ('.macro addw\n adiw r24, @0\n.endm\n addw (30+3)*2', None), ('.macro addw\n adiw r24, @0\n.endm\n addw (3+3)*2', '0c96'),
                  ('.macro jr\n rjmp @0-1\n.endm\n jr 1+1', '00c0'), ('.macro bit\n sbi 5, @0\n.endm\n bit 4+4', None), ('.macro bit\n sbi 5, @0\n.endm\n bit 9-2', '2f9a')]
+        extra += [("ldi r16, 'A'", '01e4'), ("ldi r16, '\u00e9'", '09ee'), ("ldi r16, '\u03a9'", None), ("ldi r16, '\u20ac'", None), ("cpi r17, 'z' + 1", '1b37'),
+                  (".macro lc\n ldi r16, @0\n.endm\n lc '\u03a9'", None)]
+        # operands the ISA cannot encode stay rejected whatever device is selected (one device per distinct flash size)
+        import device_tab
+        try:
+            rows = device_tab.parse_table(core.REPO)
+        except Exception:
+            rows = {}
+        by_flash = {}
+        for dname in sorted(rows):
+            if 'Avr8l' not in rows[dname]['opts']:
+                by_flash.setdefault(rows[dname]['flash_size'], dname)
+        bad_lines = [(jobs[i], names[i]) for i in range(len(jobs)) if exp[i][1] is None and '.device' not in jobs[i]]
+        for dname in sorted(by_flash.values()):
+            for j, nm in (bad_lines if not only_rel else [b for b in bad_lines if any(w in b[0] for w in ('rjmp', 'rcall', 'br'))]):
+                body = j[len('build\n'):]
+                jobs.append('build\n.device %s\n%s' % (dname, body))
+                exp.append((0, None))
+                names.append('%s ; on %s' % (nm, dname))
         for text, want in extra:
             if only_rel and not any(w in text for w in ('rjmp', 'brne')):
                 continue
@@ -348,7 +367,10 @@ def witnesses_c05(tier, seed):
     for lit, e in [('0x7FFFFFFFFFFFFFFF', expr_sem.I64_MAX), ('$7fffffffffffffff', expr_sem.I64_MAX), ('9223372036854775807', expr_sem.I64_MAX),
                    ('0x8000000000000000', None), ('$FFFFFFFFFFFFFFFF', None), ('0xFFFFFFFFFFFFFFFF', None), ('9223372036854775808', None),
                    ('18446744073709551615', None), ('0b' + '1' * 64, None), ('0b0' + '1' * 63, expr_sem.I64_MAX), ('exp2(62)', 1 << 62), ('exp2(63)', None),
-                   ('exp2(64)', None), ('1 << 63', -(1 << 63)), ('1 << 64', None)]:
+                   ('exp2(64)', None), ('1 << 63', -(1 << 63)), ('1 << 64', None),
+                   # leading zeros carry no meaning, however many there are
+                   ('0x000000000000000ff', 255), ('$00000000000000001234', 0x1234), ('0b' + '0' * 70 + '101', 5), ('0' * 24 + '17', 15),
+                   ('0' * 30, 0), ('0x' + '0' * 20 + '7fffffffffffffff', expr_sem.I64_MAX), ('0x' + '0' * 20 + '8000000000000000', None)]:
         ws.append((lit, e))
     jobs = ['build\n.dq %s\n' % w[0] for w in ws]
     # the same expressions handed through a macro argument (rendered by Display, pasted into the body, parsed again): the value the
@@ -502,6 +524,16 @@ def witnesses_layout(tier, seed, with_org=True):
         ('string_in_dw_fails', '.dw "ab"\n', 'error'),
         ('db_in_dseg_fails', '.dseg\n.db 1\n', 'error'),
         ('byte_in_cseg_fails', '.byte 2\n', 'error'),
+        # items produced by macro expansion are laid out like written ones
+        ('macro_right_after_org', ' nop\n.macro vec\n rjmp @0\n.endm\n.org 0x4\n vec start\n.org 0xa\nstart: nop\n.dw start\n',
+         dict(code='0000' + '0000' * 3 + '05c0' + '0000' * 5 + '0000' + '0a00')),
+        ('label_after_nested_macro_behind_segment_switch', '.macro inner\n ldi r16, 1\n ldi r17, 2\n.endm\n.macro outer\n nop\n.dseg\n.byte 1\n.cseg\n inner\n.endm\n outer\nafter: nop\n.dw after\n',
+         dict(code='000001e012e000000300')),
+        ('label_after_macro_with_org_inside', '.macro far\n nop\n.org 0x6\n nop\n.endm\n far\nafter: .dw after\n', dict(code='0000' + '0000' * 5 + '0000' + '0700')),
+        # data directives reached through a macro body that starts with a segment switch
+        ('eeprom_data_from_macro_body', 'nop\n.macro tbl\n.eseg\n.db 1, 2, "abc"\n.dw 0x1234\n.cseg\n.endm\n tbl\n ret\n', dict(code='00000895', eeprom='01026162633412')),
+        ('dseg_reservation_from_macro_body', 'nop\n.macro var\n.dseg\nv: .byte 3\n.cseg\n.endm\n var\n ldi r16, low(v)\n', dict(code='000000e6', ram_filling=3)),
+        ('flash_data_from_macro_body_after_eseg', '.macro both\n.eseg\n.db 7\n.cseg\n.db 1, 2, 3\n.endm\n both\nl: .dw l\n', dict(code='010203000200', eeprom='07')),
         # values at and beyond the element widths, written as literals of every radix (the literal forms are grammar)
         ('db_range_limits', '.db -128, 255, 0xff, $80, 0b11111111, 0377\n', dict(code='80ffff80ffff')),
         ('db_256_fails', '.db 256, 0\n', 'error'), ('db_hex_100_fails', '.db 0x100, 0\n', 'error'), ('db_minus_129_fails', '.db -129, 0\n', 'error'),
@@ -557,7 +589,8 @@ PROPS['C02'] = dict(
                'implies what pass 2 requires and that both passes agree on the address of every item.',
     level_note='parser/segment creation: unit DIR #org #seg_switch + witnesses; `.org 0` after code is a recorded finding',
     technique='Verus loop invariants on extracted pass_1_internal/build_pass_1/pass_2_internal/build_pass_2 against recursive layout and fold oracles',
-    verus=['pass1', 'pass2', 'link', 'data', 'encv', 'dir'],
+    verus=['pass1', 'pass2', 'link', 'data', 'encv', 'dir', 'pass0'],
+    depends_on=['C09'],   # the items whose positions the property speaks of include those a macro expansion produces: the splice of pass 0 is presupposed
     witnesses=witnesses_layout,
     functions=['builder::pass1::{build_pass_1, pass_1_internal, next_address}', 'builder::pass2::{build_pass_2, pass_2_internal}',
                'directive::{Operand::*, GetData for Vec<Operand>}', 'instruction::process (length), Operation::info'],
@@ -624,7 +657,13 @@ def witnesses_c12(tier, seed):
              # capacity reached by a macro expansion placed by .org
              ('macro_after_org_at_flash_end', 'build\n.device ATtiny13\n.macro one\n nop\n.endm\n.org 0x1ff\n one\n', 'ok'),
              ('macro_after_org_beyond_flash_end', 'build\n.device ATtiny13\n.macro two\n nop\n nop\n.endm\n.org 0x1ff\n two\n', 'err'),
-             ('macro_after_org_past_flash', 'build\n.device ATtiny13\n.macro one\n nop\n.endm\n.org 0x200\n one\n', 'err')]
+             ('macro_after_org_past_flash', 'build\n.device ATtiny13\n.macro one\n nop\n.endm\n.org 0x200\n one\n', 'err'),
+             # a memory filled exactly to capacity through data - .org - data (what pass 2 pads must be what pass 1 counted)
+             ('eeprom_full_after_org', 'build\n.device ATmega48\n.eseg\n.db 1, 2\n.org 0xff\n.db 9\n', 'ok'),
+             ('eeprom_one_past_after_org', 'build\n.device ATmega48\n.eseg\n.db 1, 2\n.org 0xff\n.db 9, 10\n', 'err'),
+             ('flash_full_after_org', 'build\n.device ATtiny13\n nop\n nop\n.org 0x1ff\n nop\n', 'ok'),
+             ('flash_one_past_after_org', 'build\n.device ATtiny13\n nop\n nop\n.org 0x1ff\n nop\n nop\n', 'err'),
+             ('org_then_same_segment_directive_keeps_origin', 'build\n.device ATmega48\n.org 0x7ff\n.cseg\n nop\n nop\n', 'err')]
     jobs += [e[1] for e in extra]
     res = replay.run_jobs(jobs, timeout_per_job=30)
     out = []
@@ -658,7 +697,7 @@ PROPS['C12'] = dict(
     level_note='the `.device` arm of Directive::parse (lookup, single-selection rule, frame) is clause #device of unit DIR; '
                '`.byte <expression>` silently reserving nothing is pinned by the test suite (known finding)',
     technique='Verus contract on the extracted limit check + generated table/part-file obligations + Kani harness for Device::new',
-    verus=['build', 'devtab', 'pass1', 'dir', 'encv'],
+    verus=['build', 'devtab', 'pass1', 'dir', 'encv', 'pass2', 'link'],
     depends_on=['C02'],   # 'fills flash exactly to capacity' presupposes the sizes and positions of the layout property (instruction lengths, padding)
     kani=[dict(slice='dev', harnesses=lambda tier: [h for h in _dev_harnesses(tier) if h[0] == 'dev_new'])],
     witnesses=witnesses_c12,
@@ -704,6 +743,17 @@ def witnesses_c13(tier, seed):
         for i, l in enumerate(lines):
             idx[(d, i)] = len(jobs)
             jobs.append('build\n.device %s\n %s\n' % (d, l[1]))
+    by_mn = {}
+    for i, l in enumerate(lines):
+        by_mn.setdefault(l[0], []).append(i)
+    seq_jobs = []
+    for d in devs:
+        opts = rows[d]['opts']
+        for mn, idxs in by_mn.items():
+            ok_i = [i for i in idxs if device_feat.allowed_py(opts, mn, lines[i][2], lines[i][3], lines[i][4])]
+            bad_i = [i for i in idxs if i not in ok_i]
+            if ok_i and bad_i and not ('Avr8l' in opts and mn in ('lds', 'sts')):
+                seq_jobs.append(('gate-sequence:%s:%s ; %s' % (d, lines[ok_i[0]][1], lines[bad_i[0]][1]), 'build\n.device %s\n %s\n %s\n' % (d, lines[ok_i[0]][1], lines[bad_i[0]][1])))
     extra = [('avr8l_label_after_sts', '.device ATtiny20\n sts 0x40, r16\ndone: rjmp done\n', '00a9ffcf'),
              ('avr8l_label_after_lds', '.device ATtiny20\n lds r16, 0x40\ndone: rjmp done\n', '00a1ffcf'),
              ('avr8l_branch_over_lds_sts', '.device ATtiny20\n breq done\n lds r17, 0x41\n sts 0x42, r17\ndone: nop\n', '11f011a112a90000')]
@@ -715,6 +765,8 @@ def witnesses_c13(tier, seed):
                 extra.append(('avr8l:%s' % txt, '.device ATtiny20\n %s\n' % txt, None if w is None else isa.le_bytes(w).hex()))
     base_extra = len(jobs)
     jobs += ['build\n' + e[1] for e in extra]
+    base_seq = len(jobs)
+    jobs += [j for _, j in seq_jobs]
     res = replay.run_jobs(jobs)
     out = []
     for d in devs:
@@ -735,6 +787,11 @@ def witnesses_c13(tier, seed):
         ok = (r.get('status') == 'err') if want is None else (r.get('status') == 'ok' and r.get('code') == want)
         if not ok or not name.startswith('avr8l:') or k % 37 == 0:
             out.append(WitnessResult(name, 'build\n' + src, ok, dict((k2, r.get(k2)) for k2 in ('status', 'code', 'err')), want if want is not None else 'error', 'enc/' if name.startswith('avr8l:') else 'pass1/'))
+    for k, (name, job) in enumerate(seq_jobs):
+        r = res[base_seq + k]
+        if r.get('status') != 'err' or k % 11 == 0:
+            out.append(WitnessResult(name, job, r.get('status') == 'err', dict((k2, r.get(k2)) for k2 in ('status', 'code', 'err')),
+                                     'the build fails: the second form is one the device lacks, whatever was admitted before it', 'dev/'))
     out.append(WitnessResult('gate:summary', '%d devices x %d instruction lines' % (len(devs), len(lines)), True, 'see the individual entries', 'all as the row flags say'))
     return out
 
@@ -860,7 +917,13 @@ def witnesses_c08(tier, seed):
              ('define_beats_equ_of_other_case', '.equ mode = 3\n.define Mode\n.if Mode == 3\n ldi r16, 1\n.else\n ldi r16, 2\n.endif\n', '02e0'),
              ('ifdef_exact_case', '.define Fast\n.ifdef Fast\n ldi r16, 1\n.else\n ldi r16, 2\n.endif\n', '01e0'),
              ('ifndef_undefined', '.ifndef nothing\n ldi r16, 1\n.else\n ldi r16, 2\n.endif\n', '01e0'),
-             ('elif_negative', '.if 0\n ldi r16, 1\n.elif 1 - 3\n ldi r16, 2\n.else\n ldi r16, 3\n.endif\n', '02e0')]
+             ('elif_negative', '.if 0\n ldi r16, 1\n.elif 1 - 3\n ldi r16, 2\n.else\n ldi r16, 3\n.endif\n', '02e0'),
+             # the condition arrives through a macro argument (pasted as text and parsed again)
+             ('ifdef_on_macro_argument', '.define USE_FAST\n.macro pick\n.ifdef @0\n ldi r16, 1\n.else\n ldi r16, 2\n.endif\n.endm\n pick USE_FAST\n', '01e0'),
+             ('ifndef_on_macro_argument', '.define UseFast\n.macro pick\n.ifndef @0\n ldi r16, 1\n.else\n ldi r16, 2\n.endif\n.endm\n pick UseFast\n', '02e0'),
+             ('ifdef_on_macro_argument_other_case_is_undefined', '.define use_fast\n.macro pick\n.ifdef @0\n ldi r16, 1\n.else\n ldi r16, 2\n.endif\n.endm\n pick USE_FAST\n', '02e0'),
+             ('if_on_macro_argument_expression', '.macro pick\n.if @0 > 6\n ldi r16, 1\n.else\n ldi r16, 2\n.endif\n.endm\n pick 3+4\n pick 2*3\n', '01e002e0'),
+             ('ifdef_sees_only_defines', '.equ NAME = 4\n.ifdef NAME\n ldi r16, 1\n.else\n ldi r16, 2\n.endif\n.ifndef NAME\n ldi r17, 1\n.endif\n', '02e011e0')]
     res2 = replay.run_jobs(['build\n' + f[1] for f in fixed])
     for (name, src, want), r in zip(fixed, res2):
         out.append(WitnessResult('select:' + name, 'build\n' + src, r.get('status') == 'ok' and r.get('code') == want, dict((k, r.get(k)) for k in ('status', 'code', 'err')), want, 'cond/'))
@@ -1018,6 +1081,13 @@ def witnesses_c16(tier, seed):
             for pre in ('.dseg\n', '.eseg\n', '.if 0\n', '.macro never\n', '.macro m\n'):
                 post = {'.if 0\n': '.endif\n', '.macro never\n': '.endm\n', '.macro m\n': '.endm\n m\n'}.get(pre, '')
                 jobs.append('build\n%s %s %s\n%s' % (pre, h, a, post))
+    # every kind of name bound twice, in every order (the clash is an error path of its own in each pass)
+    binders = {'label': 'x: nop\n', 'equ': '.equ x = 1\n', 'set': '.set x = 2\n', 'def': '.def x = r16\n', 'define': '.define x\n', 'macro': '.macro x\n nop\n.endm\n',
+               'pc': '.set pc = 3\n', 'label_after': ' nop\nX: nop\n', 'dseg_label': '.dseg\nx: .byte 1\n.cseg\n'}
+    for a in binders.values():
+        for b in binders.values():
+            jobs.append('build\n' + a + b + ' ldi r16, low(x)\n')
+            jobs.append('build\n' + a + b + '.undef x\n x\n')
     multi = ['.equ a = b\n.equ b = a\n ldi r16, a\n', '.macro m\n m\n.endm\n m\n', '.macro a\n b\n.endm\n.macro b\n a\n.endm\n a\n', '.if 1\n' * 200,
              '.endif\n.else\n.elif 1\n.endm\n', '.macro x\n', '.dseg\n.byte 999999999999\n', '.org 0x7fffffff\n nop\n', '.eseg\n.org 4294967295\n.db 1\n',
              '.device ATtiny10\n.dseg\n.byte 33\n', '(' * 300 + '\n', '.db ' + ','.join(['1'] * 5000) + '\n', '.include "/nonexistent/file.inc"\n',
@@ -1080,7 +1150,14 @@ def witnesses_c09(tier, seed):
     for a, b in ws:
         jobs += ['build\n' + a, 'build\n' + b]
     fixed = [('undefined_macro', 'build\n nosuchmacro r1, 2\n', 'err'), ('missing_argument', 'build\n.macro m\n ldi @0, @1\n.endm\n m r16\n', 'err'),
-             ('self_call_bounded', 'build\n.macro m\n m\n.endm\n m\n', 'err'), ('capital_name_callable', 'build\n.macro BIG\n nop\n.endm\n big\n Big\n', 'ok')]
+             ('self_call_bounded', 'build\n.macro m\n m\n.endm\n m\n', 'err'), ('capital_name_callable', 'build\n.macro BIG\n nop\n.endm\n big\n Big\n', 'ok'),
+             # an identifier argument keeps its spelling (names of .define flags are case-sensitive)
+             ('define_flag_as_argument', 'build\n.define FAST\n.macro pick\n.ifdef @0\n nop\n.else\n ret\n.endif\n.endm\n pick FAST\n', '0000'),
+             ('mixed_case_flag_as_argument', 'build\n.define UseUart\n.macro pick\n.ifndef @0\n ret\n.else\n nop\n.endif\n.endm\n pick UseUart\n', '0000'),
+             ('undefined_flag_as_argument', 'build\n.define fast\n.macro pick\n.ifdef @0\n nop\n.else\n ret\n.endif\n.endm\n pick FAST\n', '0895'),
+             # a nested call after a segment switch inside the body is expanded too
+             ('nested_call_after_segment_switch', 'build\n.macro inner\n ldi r16, 1\n.endm\n.macro outer\n nop\n.dseg\n.byte 1\n.cseg\n inner\n.endm\n outer\n ret\n', '000001e00895'),
+             ('unknown_name_after_segment_switch_fails', 'build\n.macro outer\n nop\n.dseg\n.byte 1\n.cseg\n bogus r1\n.endm\n outer\n', 'err')]
     jobs += [f[1] for f in fixed]
     res = replay.run_jobs(jobs)
     out = []
@@ -1093,7 +1170,8 @@ def witnesses_c09(tier, seed):
         out.append(WitnessResult('macro:%d' % i, 'build\n' + a, ok, dict(with_macros=dict((k, r.get(k)) for k in ('status', 'code', 'err')), hand_expanded=dict((k, rf.get(k)) for k in ('status', 'code', 'err'))),
                                  'same images as the hand-expanded program', 'macro/'))
     for (name, job, want), r in zip(fixed, res[2 * len(ws):]):
-        out.append(WitnessResult(name, job, r.get('status') == want, dict((k, r.get(k)) for k in ('status', 'code', 'err')), want, 'macro/'))
+        ok = r.get('status') == want if want in ('ok', 'err') else (r.get('status') == 'ok' and r.get('code') == want)
+        out.append(WitnessResult(name, job, ok, dict((k, r.get(k)) for k in ('status', 'code', 'err')), want, 'macro/'))
     return out
 
 
